@@ -186,7 +186,7 @@ func (c *ctx) pred(atoms map[byte][]string, depth int) string {
 			return "NOT (" + c.pred(atoms, depth-1) + ")"
 		}
 	case 7:
-		return a + " " + c.g.Pick("=", "<", ">=") + " " + c.g.Pick("ANY", "ALL") + " (VALUES (" + b + "), (" + c.atom(t, atoms) + "))"
+		return a + " " + c.g.Pick("=", "<", ">=") + " " + c.g.Pick("ANY", "ALL") + " (SELECT grp FROM t2 WHERE grp < " + c.g.Pick("2", "4", "9") + ")"
 	}
 	return a + " = " + b
 }
@@ -462,6 +462,9 @@ func runC14(seed int64, n int, dir string, _ []string) {
 			}
 		case "prepared":
 			q, form := c.selectStmt()
+			for form == "union" || form == "subquery" {
+				q, form = c.selectStmt()
+			}
 			q = strings.Replace(q, " FROM t", ", ? FROM t", 1)
 			name := fmt.Sprintf("ps%d", c.seq)
 			if _, e := c.execChecked(fmt.Sprintf("PREPARE %s FROM '%s';", name, strings.ReplaceAll(q, "'", "''")), kind); e != nil {
